@@ -125,6 +125,7 @@ impl Stage for C06 {
             out.class("has-runtime-error");
         }
         let mut compared = 0;
+        let mut parallel_paths_entered = false;
         for p in &self.profiles {
             for rep in 0..self.reps {
                 let cfg = RunCfg { threads: p.threads, dump_every: false, ..RunCfg::default() };
@@ -133,6 +134,12 @@ impl Stage for C06 {
                     ChildRun::Done(r) => {
                         compared += 1;
                         out.count("child_runs", 1);
+                        for (k, v) in &r.paths {
+                            if *v > 0 && (k.contains("parallel") || k.contains("strata")) {
+                                out.count(format!("path:{k}"), *v);
+                                parallel_paths_entered = true;
+                            }
+                        }
                         if let Some(c) = r.cmds.iter().find(|c| c.res == "panic") {
                             out.fail(format!("panic:{}", crate::fw::panic_key(&c.err)), format!("[{}] `{}` panicked (single-threaded run did not): {}", p.label, c.text, c.err));
                             return out;
@@ -164,7 +171,10 @@ impl Stage for C06 {
         if text.contains("-of") {
             out.class("has-containers");
         }
-        out.nontrivial = compared > 0 && changed_runs >= 1 && has_union;
+        if parallel_paths_entered {
+            out.class("parallel-path-entered(hook counter)");
+        }
+        out.nontrivial = compared > 0 && changed_runs >= 1 && has_union && parallel_paths_entered;
         out
     }
 }
@@ -195,7 +205,7 @@ pub fn run(rep: &Report) {
     rep.set_rule(
         "cases = generated monotone programs (+containers, subsumption, costs, extraction) and monotone .egg corpus files; each is run single-threaded in-process and in child processes under a matrix of thread counts {1,2,3,4,8,16} x cut-off profiles (all EGGLOG_PARALLEL_*_CUTOFF=0, mixed small, default) x fork depth {0,2,8} x action batch {1,default} x tasks-per-thread {1,4}, each configuration repeated (OS schedule sampling); \
          per-command Ok/Err, check outcomes, sizes, extraction costs and canonical dumps must equal the single-threaded run. \
-         non-trivial = distinct program in which a rule run changed the database and a union occurred (so merges/rebuilds happen on the parallel paths), compared under at least one multi-threaded cut-off-0 configuration",
+         non-trivial = distinct program in which a rule run changed the database and a union occurred (so merges/rebuilds happen on the parallel paths), compared under at least one configuration whose child process reports (verif-hooks counters) that a parallel code path was really entered",
     );
     rep.assume("thread interleavings are sampled by repetition, not enumerated");
     let st = C06 { profiles: profiles(rep.tier), reps: rep.tier.pick(1, 3) };
